@@ -17,7 +17,7 @@ OUTSIDE = ["dynamic (callable) values", "deleting attributes", "hierarchies othe
            "diamond A>(L,R)>J (L redeclares x) and the deep chain A>B>C>D", "more than 2 added parameters"]
 ASSUMPTIONS = ["values are ints in Integer parameters without bounds"]
 STUBS = ["JSON text is abstract: Parameter._serializers['json'] replaced by a subclass of the real JSONSerialization whose dumps/loads are the identity (the serializer loop and per-type hooks still run)"]
-N_OPS = 8
+N_OPS = 9
 
 
 def _mk(shape):
@@ -133,6 +133,9 @@ def _body(classes, shape, k, each, steps, watch):
             objs[-1].x = v
         elif o == 5:    # add_parameter overriding an existing name
             K.param.add_parameter('z', param.Integer(default=v))
+        elif o == 8:    # a Parameter object assigned as a class attribute (the route add_parameter documents as supported)
+            assume(added < 2)
+            setattr(K, 'y%d' % added, param.Integer(default=v)); added += 1
         elif o == 7:    # instance-level namespace read: creates the per-instance Parameter objects
             assume(len(objs) > 0)
             ob = objs[-1]
@@ -227,4 +230,4 @@ def bounds(tier):
                          if tier == 'quick' else
                          'k=4 opcode/target programs with constant values; k=2 with symbolic unbounded int values (300 s budget per shard, exhaustion not expected)',
                 hierarchies=['chain A>B>C (C redeclares x)', 'diamond A>(L,R)>J (L redeclares x)', 'deep chain A>B>C>D (only A declares)'],
-                opcodes=['namespace read', 'class set', 'add_parameter new', 'create instance', 'instance set', 'add_parameter overriding z', 'rejected class set', 'instance-level namespace read'])
+                opcodes=['namespace read', 'class set', 'add_parameter new', 'create instance', 'instance set', 'add_parameter overriding z', 'rejected class set', 'instance-level namespace read', 'setattr(class, name, Parameter object)'])
